@@ -128,6 +128,30 @@ def extract(repo):
             "def selectRawSkips (multi : Bool) : Bool :=", "  decide %s" % raw_skips[0], "",
             "/-- `DefaultSkimSelector::should_select` -/",
             "def shouldSelect (firstN index : Nat) (presetSome inPreset regexSome regexMatches : Bool) : Bool :=", ind(should[0]), ""]
+    # get_selected_indices_and_items: what an accept returns
+    b = norm(R.fn_body(src, "get_selected_indices_and_items")[0])
+    b = re.sub(r" ?\. ?", ".", b)
+    m = re.fullmatch(r"let select_cursor = ([^;]*); "
+                     r"let mut selected: Vec<Arc<dyn SkimItem>> = self\.selected\.values\(\)\.cloned\(\)\.collect\(\); "
+                     r"let mut item_indices: Vec<usize> = self\.selected\.keys\(\)\.map\(\|\(_run, idx\)\| \*idx as usize\)\.collect\(\); "
+                     r"if ([^{]*?) \{ let cursor = self\.item_cursor \+ self\.line_cursor; "
+                     r"let current_item = self\.items\.get\(cursor\)\.unwrap_or_else\(\|\| panic!\([^;]*\)\); "
+                     r"let item = current_item\.item\.clone\(\); item_indices\.push\((current_item\.item_idx as usize|cursor)\); "
+                     r"selected\.push\(item\); \} \(item_indices, selected\)", b)
+    if not m:
+        raise R.Unsupported("get_selected_indices_and_items: not `select_cursor; values; key indices; if c { push the cursor item }; (indices, items)`")
+    AA = {"self.multi_selection": ("multi", "Bool"), "self.selected.is_empty()": ("selectedEmpty", "Bool"),
+          "self.items.is_empty()": ("listedEmpty", "Bool")}
+    sc = R.translate(m.group(1), AA)
+    pushes = R.translate(m.group(2), AA, locals_={"select_cursor": "Bool"})
+    out += ["/-! `get_selected_indices_and_items` -/", "",
+            "inductive PushIdx | itemIdx | cursor", "  deriving DecidableEq, Repr", "",
+            "/-- `let select_cursor = ..` -/",
+            "def acceptSelectCursor (multi selectedEmpty : Bool) : Bool :=", "  decide %s" % sc[0], "",
+            "/-- the condition under which the item under the cursor is pushed after the selected ones -/",
+            "def acceptPushes (select_cursor listedEmpty : Bool) : Bool :=", "  decide %s" % pushes[0], "",
+            "/-- the index pushed for it: its own `item_idx` (or the row of the cursor) -/",
+            "def acceptPushedIndex : PushIdx := %s" % (".itemIdx" if "item_idx" in m.group(3) else ".cursor"), ""]
     # src/global.rs: the run-number table
     g = open(os.path.join(repo, "src", "global.rs")).read()
     m1 = re.search(r"static ref RUN_NUM: AtomicU32 = AtomicU32::new\((\d+)\);", g)
